@@ -17,7 +17,7 @@ Space (complete product, nothing sampled):
   x init {amn, random, restart (previous run with the same windows), restart_nowin (previous run
     without any window)} x num_iter {0,1,3(,10)} x localise {F,T} x mix_ratio_z {0.5,1}
     (combinations that cannot differ are run once: localise/mix are irrelevant for num_iter=0, mix for
-    num_iter=1) (+ mix_ratio_u=0.5 in the thorough tier)
+    num_iter=1) (+ mix_ratio_u=0.5 with localise=True, num_iter 1 and 3: init amn/random in the quick tier, every init and both mix_ratio_z in the thorough tier)
   + explicit `frozen_states` (list and dict form) x outer windows.
 
 Window pairs are grouped into classes by the *reference* selection (chain-linked multiplets, threshold
@@ -253,10 +253,11 @@ def param_product(tier):
                 for loc in (False, True):
                     for mix in (0.5, 1.0):
                         out.append([init, n, loc, mix, 1.0])
-    if tier != "quick":
-        for init in ("amn", "restart"):
-            for n in (1, 3):
-                out.append([init, n, True, 0.5, 0.5])   # mix_ratio_u != 1 ("not tested, use with caution")
+    for init in (("amn", "random") if tier == "quick" else inits):
+        for n in (1, 3):
+            out.append([init, n, True, 0.5, 0.5])   # mix_ratio_u != 1 ("not tested, use with caution")
+            if tier != "quick":
+                out.append([init, n, True, 1.0, 0.5])
     return out
 
 
